@@ -17,7 +17,7 @@ func init() {
 	register(&Prop{ID: "C06", Run: runC06,
 		Rule: "graph space: every sequence (depth <= k) over an alphabet of valid frames of every type (decoders that 'take the rest' appear first and last) and malformed elements (bad version, length beyond the buffer, malformed body, truncated tail, surplus octets, length 65535); a transition appends one element. Oracle: the reference splitter cuts the datagram at its length fields; the result must equal the concatenation of the single-frame results, or be (nil, error) if any frame fails or the datagram is empty. Non-trivial = sequences of >= 2 elements",
 		Assumptions: []string{
-			"differential oracle: the expected packet for a frame is what rtcp.Unmarshal returns for that frame alone (C02/C04 judge single frames)",
+			"differential oracle: the expected packet for a frame is what rtcp.Unmarshal returns for that frame alone (C02/C04 judge single frames); a frame is malformed when its own decoder refuses it alone, or when its framing (version, length field, size) is broken. Whether a decoder is too lenient towards a well-framed body that an RFC forbids (a FIR without entries, a sender report whose count exceeds the blocks present) is not judged: no statement lists such bodies",
 			"the frame alphabet is representative of adjacency effects; sequences longer than the bound are not explored",
 		},
 		BoundsQuick:    "42 small elements, all sequences of depth <= 3; 9 large frames (64 KiB..256 KiB) alone, next to every element and around 8 representative frames",
